@@ -50,7 +50,8 @@ CLAIMS["C12"] = dict(
          "recursive-definition on self-dependence; '.link' hands it the raw expression; compile_and_link_files defaults to 0o1000 iff nothing set the base and continues "
          "addresses across files; compile_include defaults to the include address; '. = X' with the base set moves the counter to X by zero fill or reports an error "
          "(negative skip), and before any base sets it - for statement lists of arbitrary length; Promise is single-assignment; a base dependence that cancels leaves no "
-         "variable, one that does not is not-ready / cyclic. A run-time check assembles link expressions K + sum k*(L-L) and skips 0..64 (testing).",
+         "variable, one that does not is not-ready / cyclic. A run-time check assembles link expressions K + sum k*(L-L) and skips 0..64 (testing). Open findings: D39 (a skip "
+         "between the labels of a cancelling link expression is refused), D38 (inside an INCLUDED file a further '.link' is accepted and '. = X' re-bases instead of zero-filling).",
     note="Trusted: pyvc, z3, callee contract get_as_int. Observation kept outside the claim: a non-leading '. = X' without a prior .link sets the base. "
          "No reference assembler is installed.",
 )
